@@ -1,5 +1,6 @@
 //! moyo_harness: runs the real moyo code in-process and writes case files for the Lean model.
 mod c15;
+mod tables;
 mod util;
 
 fn main() {
@@ -18,9 +19,37 @@ fn main() {
         "c15-box" => c15::box_check(args[2].parse().unwrap(), args[3].parse().unwrap()),
         // c15-one <hnf|snf> m n entries...
         "c15-one" => c15::one(&args[2], &args[3..]),
+        // tables-gen <out>  |  malformed-gen <count> <out>
+        "tables-gen" => tables::gen_tables(&args[2]),
+        "malformed-gen" => tables::gen_malformed(seed, args[2].parse().unwrap(), &args[3]),
+        // eval <infile> <outfile> <start>: evaluate request lines one by one, flushing after each
+        "eval" => eval(&args[2], &args[3], args[4].parse().unwrap()),
         other => {
             eprintln!("unknown command {}", other);
             std::process::exit(2);
         }
     }
+}
+
+/// Isolated evaluation: appends `index ||| expected` for each request line from `start` on.
+/// The Python side watches the file grow, kills this process on a stall or crash, records the
+/// stuck request, and restarts after it.
+fn eval(infile: &str, outfile: &str, start: usize) {
+    use std::io::Write;
+    let text = std::fs::read_to_string(infile).expect("read requests");
+    let mut out = std::fs::OpenOptions::new().create(true).append(true).open(outfile).expect("open out");
+    for (i, line) in text.lines().enumerate() {
+        if i < start {
+            continue;
+        }
+        writeln!(out, "{} ||| START", i).unwrap();
+        out.flush().unwrap();
+        let res = eval_request(line).unwrap_or_else(|| "UNKNOWN-REQUEST".to_string());
+        writeln!(out, "{} ||| {}", i, res).unwrap();
+        out.flush().unwrap();
+    }
+}
+
+fn eval_request(req: &str) -> Option<String> {
+    tables::eval_request(req)
 }
